@@ -49,3 +49,38 @@ pub fn eddsa_legacy_ecdh<R: Rng + CryptoRng>(mut rng: R) -> SignedSecretKey {
         .expect("key params");
     params.generate(&mut rng).expect("generate key")
 }
+
+fn generic<R: Rng + CryptoRng>(mut rng: R, version: KeyVersion, primary: KeyType, sub: KeyType, uid: &str) -> SignedSecretKey {
+    let params = SecretKeyParamsBuilder::default()
+        .version(version)
+        .key_type(primary)
+        .can_certify(true)
+        .can_sign(true)
+        .primary_user_id(uid.into())
+        .passphrase(None)
+        .subkey(
+            SubkeyParamsBuilder::default()
+                .version(version)
+                .key_type(sub)
+                .can_encrypt(EncryptionCaps::All)
+                .passphrase(None)
+                .build()
+                .expect("subkey params"),
+        )
+        .build()
+        .expect("key params");
+    params.generate(&mut rng).expect("generate key")
+}
+
+pub fn ecdsa_p256_ecdh<R: Rng + CryptoRng>(rng: R) -> SignedSecretKey {
+    use pgp::crypto::ecc_curve::ECCCurve;
+    generic(rng, KeyVersion::V4, KeyType::ECDSA(ECCCurve::P256), KeyType::ECDH(ECCCurve::P256), "Verif p256 <p256@example.org>")
+}
+
+pub fn rsa2048<R: Rng + CryptoRng>(rng: R) -> SignedSecretKey {
+    generic(rng, KeyVersion::V4, KeyType::Rsa(2048), KeyType::Rsa(2048), "Verif rsa <rsa@example.org>")
+}
+
+pub fn ed448_x448<R: Rng + CryptoRng>(rng: R) -> SignedSecretKey {
+    generic(rng, KeyVersion::V6, KeyType::Ed448, KeyType::X448, "Verif 448 <x448@example.org>")
+}
